@@ -223,6 +223,17 @@ pub fn main(args: &[String], which: &str) {
     }
     if which == "c10" { ignore_family(&mut rep); include_line_family(&mut rep); }
     if which == "c03" { aligned_include_family(&mut rep); }
+    if which == "c04" {
+        // hypothesis of the Lean theorem C04_dead_subtrees_reached_clean: in the model's parse of every file of the generated cases each
+        // `define / macro usage / `__FILE__ / `__LINE__ node carries a token (the model must answer "leafy")
+        let mut lines: Vec<String> = vec![];
+        for c in cases.iter() { for (_, t) in &c.texts { if lines.len() < (if thorough { 20000 } else { 2500 }) {
+            // only texts the preprocessor's own parser accepts (anything but Error::Preprocess when preprocessed alone, includes ignored)
+            let parses = !matches!(std::panic::catch_unwind(|| crate::api::preprocess_str(t, PathBuf::from("g.sv"), &crate::api::no_defines(), &crate::api::no_includes(), true, false, 0, 0)), Ok(Err(crate::api::Error::Preprocess(_))) | Err(_));
+            if parses { lines.push(format!("good {}", util::hex(t.as_bytes()))); } } } }
+        std::fs::write(format!("{}.good.cases", out), lines.join("\n") + "\n").unwrap();
+        std::fs::write(format!("{}.good.impl", out), lines.iter().map(|_| "leafy").collect::<Vec<_>>().join("\n") + "\n").unwrap();
+    }
     rep.write(out);
     println!("ok");
 }
